@@ -58,6 +58,26 @@ OPS = [
     ("call", r"\bany\(", ["all("]),
     ("call", r"\bmax\(", ["min("]),
     ("swap", r"\(a, a_transpose\)", ["(a, b_transpose)"]),
+    ("ident", r"\b(\w*?)rows(\w*)\b", ["{0}cols{1}"]),
+    ("ident", r"\b(\w*?)cols(\w*)\b", ["{0}rows{1}"]),
+    ("ident", r"\ba_(transpose|index)\b", ["b_{0}"]),
+    ("ident", r"\bb_(transpose|index)\b", ["a_{0}"]),
+    ("ident", r"\bis_tracked\b", ["keep_gradient"]),
+    ("ident", r"\bkeep_gradient\b", ["is_tracked"]),
+    ("ident", r"\bstart_tracking\b", ["stop_tracking"]),
+    ("ident", r"\bstop_tracking\b", ["start_tracking"]),
+    ("ident", r"\bself\.(dimensions|values)\b", ["other.{0}"]),
+    ("ident", r"\bother\.(dimensions|values)\b", ["self.{0}"]),
+    ("ident", r"\bx\.(dimensions|values|is_tracked)\b", ["y.{0}"]),
+    ("ident", r"\by\.(dimensions|values|is_tracked)\b", ["x.{0}"]),
+    ("ident", r"\ba\.(dimensions|values|is_tracked)\b", ["b.{0}"]),
+    ("ident", r"\bb\.(dimensions|values|is_tracked)\b", ["a.{0}"]),
+    ("ident", r"\.first\(\)", [".last()"]),
+    ("ident", r"\.last\(\)", [".first()"]),
+    ("ident", r"\bdelta\b", ["x"]),
+    ("ident", r"\bimage_depth\b", ["filter_rows"]),
+    ("ident", r"\bchild\.dimensions\b", ["self.dimensions"]),
+    ("ident", r"\bSome\(([^()]*(\([^()]*\))?[^()]*)\)(?= \} else)", ["None"]),
     ("index", r"\bt\[0\]", ["t[1]"]),
     ("index", r"\bt\[1\]", ["t[0]"]),
     ("index", r"\bc\[0\]", ["c[1]"]),
@@ -96,15 +116,28 @@ def gen():
                         if "blas" in code and "cfg" in code:
                             continue
                         for rep in reps:
+                            if "{0}" in rep or "{1}" in rep:
+                                rep = rep.format(*[g or "" for g in m.groups()])
                             muts.append({"file": rel, "line": ln, "start": offset + m.start(), "end": offset + m.end(), "old": m.group(0), "new": rep, "op": name,
                                          "text": stripped[:120]})
             # statement deletion: a whole-line expression statement (method call ending in `;`)
             if re.match(r"^\s*[a-z_][\w.\[\]]*(\.|::)[\w:]+\(.*\);\s*$", line) and "let " not in line and "return" not in line:
                 muts.append({"file": rel, "line": ln, "start": offset, "end": offset + len(line), "old": line, "new": "", "op": "delete", "text": stripped[:120]})
             offset += len(line) + 1
-    for i, m in enumerate(muts):
-        m["id"] = "M%04d" % i
-    json.dump(muts, open(os.path.join(WORK, "mutants.json"), "w"), indent=0)
+    prev = {}
+    pp = os.path.join(WORK, "mutants.json")
+    if os.path.exists(pp):
+        for m in json.load(open(pp)):
+            prev[(m["file"], m["start"], m["end"], m["new"])] = m["id"]
+    nxt = max([int(v[1:]) for v in prev.values()] + [-1]) + 1
+    for m in muts:
+        k = (m["file"], m["start"], m["end"], m["new"])
+        if k in prev:
+            m["id"] = prev[k]
+        else:
+            m["id"] = "M%04d" % nxt
+            nxt += 1
+    json.dump(muts, open(pp, "w"), indent=0)
     print(len(muts), "mutants")
     by = {}
     for m in muts:
